@@ -49,17 +49,18 @@ def treeRoot (H : α → α → α) (z0 : α) : Nat → List α → α
 def merkleizeSpec (H : α → α → α) (z0 : α) (d : Nat) (l : List α) : α :=
   treeRoot H z0 d (l ++ List.replicate (2 ^ d - l.length) z0)
 
-/-- the same tree, an empty subtree answered by `zeroAt` without descending (executable) -/
-def treeRootZ (H : α → α → α) (z0 : α) : Nat → List α → α
-  | d, [] => zeroAt H z0 d
+/-- the same tree, an empty subtree answered by the zero-hash table `Z` (`Z k` = `zeroAt k`) without
+descending (executable) -/
+def treeRootZ (H : α → α → α) (Z : Nat → α) : Nat → List α → α
+  | d, [] => Z d
   | 0, x :: _ => x
   | d + 1, x :: xs =>
-    H (treeRootZ H z0 d ((x :: xs).take (2 ^ d))) (treeRootZ H z0 d ((x :: xs).drop (2 ^ d)))
+    H (treeRootZ H Z d ((x :: xs).take (2 ^ d))) (treeRootZ H Z d ((x :: xs).drop (2 ^ d)))
 
 /-- `hash_tree_root(List[T, 2^d])` of composite `T` given the element roots:
 `mix_in_length(merkleize(roots, limit), len)`; `lenNode n` is the length chunk. -/
-def listRoot (H : α → α → α) (z0 : α) (lenNode : Nat → α) (d : Nat) (l : List α) : α :=
-  H (treeRootZ H z0 d l) (lenNode l.length)
+def listRoot (H : α → α → α) (Z : Nat → α) (lenNode : Nat → α) (d : Nat) (l : List α) : α :=
+  H (treeRootZ H Z d l) (lenNode l.length)
 
 /-- The deposit contract's state: `branch[h]` (for the set bits `h` of `count`) is the root of the
 last complete subtree of height `h`. -/
@@ -86,7 +87,7 @@ def pushLoop (H : α → α → α) (br : List α) (node : α) (size h : Nat) : 
 def Inc.push (H : α → α → α) (s : Inc α) (leaf : α) : Inc α :=
   ⟨pushLoop H s.branch leaf (s.count + 1) 0 s.branch.length, s.count + 1⟩
 
-/-- The loop of the contract's `get_deposit_root()` after `h` iterations:
+/-- The loop of the contract's `get_deposit_root()` after `h` iterations (`Z` = `zero_hashes`):
 ```
 node = zero; size = count
 for height in range(DEPTH):
@@ -94,15 +95,15 @@ for height in range(DEPTH):
     else:             node = sha256(node + zero_hashes[height])
     size /= 2
 ``` -/
-def rootLoop (H : α → α → α) (z0 : α) (br : List α) (n : Nat) : Nat → α
-  | 0 => z0
+def rootLoop (H : α → α → α) (Z : Nat → α) (br : List α) (n : Nat) : Nat → α
+  | 0 => Z 0
   | h + 1 =>
-    let node := rootLoop H z0 br n h
-    if (n / 2 ^ h) % 2 = 1 then H (br.getD h z0) node else H node (zeroAt H z0 h)
+    let node := rootLoop H Z br n h
+    if (n / 2 ^ h) % 2 = 1 then H (br.getD h (Z 0)) node else H node (Z h)
 
 /-- `get_deposit_root()`: the tree root with the count mixed in -/
-def Inc.root (H : α → α → α) (z0 : α) (lenNode : Nat → α) (s : Inc α) : α :=
-  H (rootLoop H z0 s.branch s.count s.branch.length) (lenNode s.count)
+def Inc.root (H : α → α → α) (Z : Nat → α) (lenNode : Nat → α) (s : Inc α) : α :=
+  H (rootLoop H Z s.branch s.count s.branch.length) (lenNode s.count)
 
 /-- the spec's `is_valid_merkle_branch` -/
 def isValidMerkleBranch [DecidableEq α] (H : α → α → α) (leaf : α) (branch : List α) (depth index : Nat)
@@ -123,6 +124,15 @@ def zeros (n : Nat) : Bytes := ⟨Array.replicate n 0⟩
 /-- the length chunk of `mix_in_length` -/
 def lenNode (n : Nat) : Bytes := uintToBytes 32 n
 def zeroAt (k : Nat) : Bytes := Merkle.zeroAt H2 ZERO32 k
+/-- the zero hashes of heights 0…64, computed once -/
+def zeroTable : Array Bytes := Array.ofFn (n := 65) fun k => zeroAt k.val
+/-- `zero_hashes[k]` (table look-up; equal to `zeroAt k` for every `k`, see `zeroFn_eq`) -/
+def zeroFn (k : Nat) : Bytes := zeroTable.getD k (zeroAt k)
+theorem zeroFn_eq (k : Nat) : zeroFn k = Merkle.zeroAt H2 ZERO32 k := by
+  unfold zeroFn zeroTable
+  by_cases h : k < 65
+  · simp [Array.getD, h, zeroAt]
+  · simp [Array.getD, h, zeroAt]
 
 /-- `hash_tree_root` of a `Bytes48` (two chunks) -/
 def htrBytes48 (b : Bytes) : Bytes := H2 (b.extract 0 32) (b.extract 32 48 ++ zeros 16)
@@ -183,10 +193,10 @@ def htrValidator (v : Validator) : Bytes :=
 
 /-- `hash_tree_root(List[Validator, VALIDATOR_REGISTRY_LIMIT])` -/
 def htrValidators (cfg : Config) (vs : List Validator) : Bytes :=
-  Merkle.listRoot H2 ZERO32 lenNode (log2ceil (max cfg.VALIDATOR_REGISTRY_LIMIT 1)) (vs.map htrValidator)
+  Merkle.listRoot H2 zeroFn lenNode (log2ceil (max cfg.VALIDATOR_REGISTRY_LIMIT 1)) (vs.map htrValidator)
 
 /-- root of an empty `List[T, limit]` of composite `T` -/
-def htrEmptyList (limit : Nat) : Bytes := H2 (zeroAt (log2ceil (max limit 1))) (lenNode 0)
+def htrEmptyList (limit : Nat) : Bytes := H2 (zeroFn (log2ceil (max limit 1))) (lenNode 0)
 
 /-- `hash_tree_root(BeaconBlockBody())` of phase0: randao_reveal, eth1_data, graffiti, proposer_slashings,
 attester_slashings, attestations, deposits, voluntary_exits — all default -/
@@ -200,7 +210,7 @@ def htrEmptyBody (cfg : Config) : Bytes :=
 
 /-- `hash_tree_root(List[DepositData, 2**DEPOSIT_CONTRACT_TREE_DEPTH](*leaves))` from the data roots -/
 def depositListRoot (leaves : List Bytes) : Bytes :=
-  Merkle.listRoot H2 ZERO32 lenNode DEPOSIT_CONTRACT_TREE_DEPTH leaves
+  Merkle.listRoot H2 zeroFn lenNode DEPOSIT_CONTRACT_TREE_DEPTH leaves
 
 /-! ## Specification (phase0 `beacon-chain.md`) -/
 
@@ -350,7 +360,7 @@ def depositLoop (cfg : Config) (ignore : Bool) :
   | s, inc, [] => some (s, inc)
   | s, inc, d :: rest =>
     let inc := inc.push H2 (htrDepositData d)
-    let s := { s with eth1_data := { s.eth1_data with deposit_root := inc.root H2 ZERO32 lenNode } }
+    let s := { s with eth1_data := { s.eth1_data with deposit_root := inc.root H2 zeroFn lenNode } }
     match processDeposit cfg ignore s d with
     | none => none
     | some s => depositLoop cfg ignore s inc rest
@@ -369,7 +379,7 @@ def genesisFromEth1 (cfg : Config) (eth1BlockHash : Bytes) (time : Nat) (deps : 
     Option State := do
   let state := genesisBlank cfg eth1BlockHash (wrap64 (time + cfg.GENESIS_DELAY)) (wrap64 deps.length)
   let (state, inc) ← depositLoop cfg ignore state (Merkle.Inc.empty ZERO32 DEPOSIT_CONTRACT_TREE_DEPTH) deps
-  let state := { state with eth1_data := { state.eth1_data with deposit_root := inc.root H2 ZERO32 lenNode } }
+  let state := { state with eth1_data := { state.eth1_data with deposit_root := inc.root H2 zeroFn lenNode } }
   -- "not enough validators to init full featured BeaconState"
   if state.validators.length < cfg.SLOTS_PER_EPOCH then none
   let state := activationLoop cfg state
